@@ -234,6 +234,41 @@ def run(ctx):
                     return sc
                 ctx.count('rcpthosts:%s' % label)
                 run_job(ctx, b, seqs, 'relay=%s,tls=n,db=0,sub=0' % rtok, mk, vocab, 'rcpthosts %s relay=%s' % (label, relay), rtok)
+    if b:
+        # inside a real TLS session: a client that is no relay client and not authenticated never gets 250 for a
+        # foreign recipient, in particular not after the certificate check failed with an error (unreadable
+        # control/tlsclients) on an earlier RCPT TO of the same connection
+        import stlsworld as TW
+        pki = TW.make_pki(ctx)
+        S_, WT_ = (lambda x: ('S', x)), ('W',)
+        lock = lambda ls: [y for l in ls for y in (S_(l), WT_)]
+        EH, ML = b'EHLO client.example\r\n', b'MAIL FROM:<s@remote.example>\r\n'
+        RR, RA = b'RCPT TO:<x@remote.example>\r\n', b'RCPT TO:<alice@example.org>\r\n'
+        tcases = []
+        for tc in ('DIR', ['relay@partner.example'], None):
+            for tail in ([RR, RR, RR], [RA, RR, RR], [RR, b'RSET\r\n', ML, RR], [RR, RA, RR, b'DATA\r\n']):
+                tcases.append(TW.Case('tls', clear=[WT_] + lock([EH, b'STARTTLS\r\n']), hs=['o'], tls=lock([EH, ML] + tail + [b'QUIT\r\n']), tlsclients=tc))
+        trs = TW.run_tls_sessions(ctx, b, pki, tcases)
+        tf = []
+        for c, r in zip(tcases, trs):
+            # replies attributed to the line sent last (lock-step client; one command may draw two replies: the
+            # `454 TLS rehandshake failed` of tls_out() is followed by the reply for the error code)
+            pairs, cur = [], None
+            for tok in r['obs']:
+                f = tok.split('/')
+                if f[0] == 'S' and f[1] == 't':
+                    cur = bytes.fromhex(f[2]) + b'\r\n' if f[2] != '_' else b'\r\n'
+                elif f[0] == 'R' and f[1] == 't' and cur is not None:
+                    pairs.append((cur, f[2]))
+            for line, code in pairs:
+                if line == RR and code == '250':
+                    tf.append((c.dumps(), str(r['replies']), 'fails relayed-inside-tls-without-entitlement (RCPT TO a foreign domain answered 250 for a client that is neither listed nor authenticated; control/tlsclients: %s)' % ('unreadable' if c.tlsclients == 'DIR' else c.tlsclients)))
+                    break
+            if r['fault']:
+                tf.append((c.dumps(), str(r['replies']), 'fails memory-safety-or-crash: ' + r['fault'][:150]))
+        ctx.count('job:tls-relay-sessions', len(tcases))
+        ctx.cov['evaluations'] += len(tcases); ctx.cov['traces_validated_against_impl'] += len(tcases)
+        vlib.handle_results(ctx, 'tls-relay', 'relay clause on real TLS sessions (Python TLS peer)', [], tf)
     h = vlib.build_harness(ctx, 'h_tlsverify')
     if h and ctx.driver:
         vlib.differential(ctx, 'tls_verify', h, gen_tlsv(ctx), canon_h=canon_tlsv, pred=pred_tlsv,
